@@ -13,6 +13,19 @@ FIRST_MISS = {
     ('C20', 'm1'): 'generated names had quotes, backslashes and tabs but no bytes >= 0x80; added UTF-8 string subscripts (2- and 3-byte sequences)',
     ('C19', 'm2'): 'generator declared only SOS1 sets through .sosno/.ref; added SOS2 (negative .sosno), 1..4 members, and .sos/.sosref sets (what AMPL emits for its own PL linearisation)',
     ('C11', 'm2'): "the stub driver registered only lower-case synonyms; it now registers mixed-case inline and out-of-line synonyms (as real drivers do, e.g. cbcmp 'mip:rens Rens')",
+    # ---- round 2 (m4, m5)
+    ('C09', 'm4'): "-AMPL runs never carried a wantsol option; they now do (any value, any source) and a .sol is still demanded",
+    ('C09', 'm5'): "every .sol fitted one stdio buffer, so a transient error on a non-final flush could not happen: the buffer size of the simulated process is now a per-run knob (1..1024 bytes), and a run that survives a .sol write fault must leave exactly the file its fault-free twin writes",
+    ('C10', 'm4'): "no run varied mip:round; added every code x mip:round=1..7 on the MIP model with a non-integral answer",
+    ('C12', 'm4'): "a reader error on a valid generated file was treated as 'not delivered' (C09's business): a valid text or binary NL file rejected by the NL reader is now a C12 violation (the statement quantifies over both encodings)",
+    ('C12', 'm5'): "every generated objective had a linear part; objectives without one (constant or purely nonlinear, no G segment) are now generated",
+    ('C04', 'm5'): "inbound values were only checked on the images of the constraints they were given for; rows that are the image of no original linear constraint must now not carry a value given for another constraint's own row, and postsolved vectors must have one entry per original item",
+    ('C02', 'm4'): "harness: the runaway reader was masked by the allocation cap (accepted as bad_alloc) or only stopped by the 60 s wall watchdog, which did not reproduce (exit 2); added a notification budget in the recording handler and allocation-count / CPU-time budgets that turn runaway loops into deterministic HANG verdicts",
+    ('C02', 'm5'): "harness: a 1-byte over-read past the in-memory input hit whatever followed the malloc block (ASan's check on that load is elided by GCC), so verdicts differed between processes (exit 2); the input is now placed directly before an inaccessible page",
+    ('C08', 'm4'): "constants were small; integral objective offsets and Hessian entries beyond 32 bits are now generated (and sums compared relative to the magnitude of their terms)",
+    ('C08', 'm5'): "every suffix had its own name and only variable .sstatus was checked on return; one name is now used on several kinds of items and returned constraint statuses are matched by row content",
+    ('C11', 'm4'): "real values were ordinary; literals that under-/overflow a double (1e-400, 4e-320, 1e999) are now generated, and errno is reset before every run (it leaked between scenarios and made the first run of this change non-reproducible)",
+    ('C19', 'm5'): "no run selected another objective than the first; obj:no=k is now varied and the delivered objective must carry the k-th name",
 }
 
 res = {}
